@@ -241,6 +241,7 @@ class Ctx:
         self.assume(self.alloc0 > 0)
         self.assume(self.trlen >= 0)
         self.branch_log = []
+        self.store_hook = None  # called after every store of the code under verification (published-state invariants)
         self.own_stores = []  # (field, "id", id term) | (field, "pred", lambda x) : heap locations written by the code under verification
 
     # ---- decisions / path condition ---------------------------------------------------------
@@ -372,6 +373,15 @@ class Ctx:
     def typed(self, t, ty):
         """wrap a loaded term with its declared shape, assuming the shape's invariant"""
         ty = self.resolve_ty(ty)
+        if isinstance(ty, TObj) and not getattr(ty, "exact_cls", True):
+            # a reference whose class is known on this path (an object created here): dispatch on its exact class
+            cidt = z3.simplify(z3.Select(self.field_array("$cls"), Z.Val.id(t)))
+            if z3.is_int_value(cidt) and cidt.as_long() in self.E.classes.by_id:
+                k = self.E.classes.by_id[cidt.as_long()]
+                if isinstance(k, ClassInfo) and self.E.classes.is_sub(k, ty.cls):
+                    exact = TObj(k.key)
+                    exact.cls = k
+                    return SV(t, exact)
         if ty is not None and not isinstance(ty, TAny):
             self.assume(ty.inv(t))
             self.assume_class(t, ty)
